@@ -95,7 +95,14 @@ def body(c):
         missing = set(fam) - set(r["field"] for r in rows)
         if missing:
             raise vlib.ToolError("no value generated for " + ", ".join(sorted(missing)))
-        cases_in = [{"field": r["field"], "route": rt, "mode": m, "v": r["v"]} for r in rows for m in ("strict", "fast") for rt in ("lit", "var")]
+        # every value in both validation modes and both transports; in the quick tier the positions whose predicates do
+        # not involve numbers (strings, item counts) get the two diagonal combinations only
+        numeric = {a["name"] for a in family if a["T"] not in ("String", "ID") and any(v["kind"] in ("maximum", "minimum", "multiple_of") for v in a["vals"])}
+        cases_in = []
+        for r in rows:
+            full = (not c.quick) or r["field"] in numeric
+            for m, rt in ((("strict", "lit"), ("strict", "var"), ("fast", "lit"), ("fast", "var")) if full else (("strict", "lit"), ("fast", "var"))):
+                cases_in.append({"field": r["field"], "route": rt, "mode": m, "v": r["v"]})
     vlib.write_ndjson(c.path("cases.ndjson"), cases_in)
     p = vlib.run_harness(binary, ["run", c.path("cases.ndjson"), c.path("trace.ndjson")], timeout=1800)
     if p.returncode != 0:
@@ -144,7 +151,8 @@ def body(c):
                      "integer width, f32, f64 with integer and float bounds, positive and negative, at the 64-bit extremes; max/min_length, "
                      "chars_max/min_length, three regex patterns on String / ID; max/min_items; list forms; optional positions; arguments and "
                      "input-object fields) every value of the per-kind pools (see the module header) that belongs to the declared Rust type; "
-                     "crossed by the driver with strict/fast validation mode and literal/variable transport.  Every case tests one "
+                     "crossed by the driver with strict/fast validation mode and literal/variable transport (quick tier: all four combinations for "
+                     "numeric validators, strict+literal and fast+variable for string / item-count validators).  Every case tests one "
                      "reach-or-refuse decision, hence non-trivial; distinct by (position, mode, transport, value)." % len(fam))
     for vd, case in sorted(first.items()):
         c.sample({"annotation": ann_text(case["ann"]), "mode": case["mode"], "request": case["note"], "resolver_calls": case["calls"],
